@@ -3,6 +3,8 @@
   `none` in a variance list models NaN.  "Does not modify its inputs" is a fact about Python objects: it is observed by the
   correspondence harness (arrays compared before/after, read-only inputs), not provable in a pure model.
 -/
+import VerdeModel.Gen.BlockMean
+import VerdeModel.Props.C09
 import VerdeModel.Lemmas.Group
 import VerdeModel.Gen.Utils
 namespace Verde.C10
@@ -157,5 +159,43 @@ theorem src_v2w (var : List (Option Rat)) (tol : Rat) (htol : 0 ≤ tol) :
     (∀ i (hi : i < var.length), var[i] = none → (Gen.varianceToWeightsComp var tol)[i]? = some 1) := by
   rw [gen_v2w_comp_eq_model]
   exact ⟨v2w_shape var tol, v2w_range var tol htol, v2w_has_one var tol htol, fun i hi h => v2w_nan_weight_one var tol htol i hi h⟩
+
+/-! ## `BlockMean.filter` as regenerated (pinned) from the source (Gen/BlockMean.lean) -/
+
+/-- **Bridge.**  `BlockMean.filter` with its three aggregation helpers, as regenerated (pinned) from the source, is the model's `blockMean`: per
+    non-empty block the (weighted) mean, and a variance that is the population variance of the members (no weights), `1 / Σw` (uncertainty
+    propagation) or the weighted variance about the weighted mean — turned into weights by `variance_to_weights`. -/
+theorem gen_block_mean_eq_model (coords data : List (List Rat)) (weights : Option (List (List Rat))) (b : BlockSpec) (centre drop unc : Bool) :
+    blockMean coords data weights b centre drop unc =
+      Gen.blockMeanFilter ⟨none, centre, drop⟩ unc (blockSplit (coords.getD 0 []) (coords.getD 1 []) b) coords data weights := by
+  unfold blockMean Gen.blockMeanFilter
+  by_cases hu : (weights.isNone && unc) = true
+  · simp only [hu, if_true, bind, Except.bind, throw, throwThe, MonadExceptOf.throw]
+  · simp only [hu, if_false, bind, Except.bind, Bool.false_eq_true]
+    cases hs : blockSplit (coords.getD 0 []) (coords.getD 1 []) b with
+    | error e => rfl
+    | ok v =>
+      obtain ⟨centres, labels⟩ := v
+      simp only [C09.gen_block_coordinates_eq_model, gen_v2w_comp_eq_model]
+      cases weights with
+      | none =>
+        simp [pure, Except.pure, Gen.blockedMeanVariance, groupAgg, ReduceSpec.fn]
+      | some ws =>
+        cases unc with
+        | true =>
+          simp only [if_true, Gen.blockedMeanUncertainty, groupAggW, bind, Except.bind, pure, Except.pure]
+          simp only [ReduceSpec.fn, throw, throwThe, MonadExceptOf.throw]
+          cases List.mapM (m := Except Err) _ (data.zip ws) with
+          | error e => rfl
+          | ok v => 
+            simp only []
+            cases List.mapM (m := Except Err) _ (data.zip ws) <;> rfl
+        | false =>
+          simp only [Bool.false_eq_true, if_false, Gen.blockedMeanVarianceWeighted, groupAggW, bind, Except.bind, pure, Except.pure, ReduceSpec.fn]
+          cases List.mapM (m := Except Err) _ (data.zip ws) with
+          | error e => rfl
+          | ok v => 
+            simp only []
+            cases List.mapM (m := Except Err) _ (data.zip ws) <;> rfl
 
 end Verde.C10
